@@ -294,8 +294,13 @@ func (gt *grpcTransport) SendConnected() bool {
 //
 // NOTE: this is part of the ClientConnTransport interface.
 func (gt *grpcTransport) ConnectSend(ctx context.Context) error {
-	sendStream, err := gt.client.SendStream(ctx)
+	// The stream outlives ctx for a moment so that the FIN of the
+	// connection that ctx belongs to still gets out.
+	streamCtx, cancelStream := lingeringStreamContext(ctx)
+	sendStream, err := gt.client.SendStream(streamCtx)
 	if err != nil {
+		cancelStream()
+
 		return err
 	}
 
